@@ -108,7 +108,8 @@ fn shard(seed: u64, shard: u64, n: u64) -> Tally {
             ov.omit_host = true;
             t.count("cases_without_a_host_header");
         }
-        let (mut case, _) = make_case(&l, &cfg, &mut sp, &ov, gen_delta_ns(&mut r));
+        let delta = gen_delta_ns(&mut r);
+        let (mut case, _) = make_case(&l, &cfg, &mut sp, &ov, delta);
         // further Authorization lines after the one that authenticates (a proxy's Basic / Bearer credentials, a stale SigV4
         // header): not looked at, and handed back like every other header line
         if l.carrier == crate::rm::decide::Carrier::Header && r.chance(1, 6) {
@@ -207,6 +208,43 @@ fn shard(seed: u64, shard: u64, n: u64) -> Tally {
                 .set("returned_body_len", J::i(o.body.len()))
                 .set("returned_principal", J::s(o.principal.to_string()))
         });
+        if i % 3 == 0 {
+            // the same client again straight afterwards (same access key, day, region, service, secret) with another session
+            // token — or none, or the same one — and the provider answering with another identity and other session data:
+            // what comes back is what the provider said *this* time, for *this* token
+            let mut l2 = l.clone();
+            l2.token = match r.below(4) {
+                0 => None,
+                1 => l.token.clone(),
+                _ => Some(format!("successor-token-{}", r.below(1 << 30))),
+            };
+            let mut sg = crate::gen::required_signed(&l2, &cfg);
+            sg.extend(l.signed.iter().cloned());
+            sg.sort();
+            sg.dedup();
+            l2.signed = sg;
+            let (mut c2, _) = make_case(&l2, &cfg, &mut sp, &Overrides::default(), delta);
+            gen_identity(&mut r, &mut c2.script);
+            let rec2 = execute(&c2);
+            t.eval();
+            if rec2.outcome.is_ok() {
+                if let Some(j2) = judge(&c2, &rec2) {
+                    if let Some(mut v) = mon_returned(&c2, &rec2, &j2).or_else(|| mon_provider_args(&c2, &rec2, &j2)) {
+                        v.signature = format!("{}|successor", v.signature);
+                        v.detail = format!("second accepted request of the same access key, day and scope (token {:?} after {:?}): {}", l2.token, l.token, v.detail);
+                        t.violate(v);
+                        continue;
+                    }
+                    t.count("successors_accepted_with_their_own_identity");
+                    if l2.token != l.token {
+                        t.count("successors_with_another_token");
+                    }
+                    t.nontrivial(c2.hash());
+                }
+            } else {
+                t.count("successor_not_accepted");
+            }
+        }
     }
     t
 }
@@ -330,13 +368,14 @@ pub fn run(tier: Tier) -> i32 {
     ctx.gate("accepted requests of services with signed-header requirements", tally.get("cases_with_requirement_sets"), tier.n(2_000, 50_000));
     ctx.gate("requests with several values for Host / X-Amz-Date / token headers", tally.get("cases_with_repeated_managed_headers"), tier.n(1_000, 30_000));
     ctx.gate("methods seen", METHODS.iter().filter(|m| tally.get(&format!("method/{}", m)) > 0).count() as u64, METHODS.len() as u64);
+    ctx.gate("second accepted request of the same access key, day and scope, the provider answering with another identity", tally.get("successors_with_another_token"), tier.n(500, 10_000));
     ctx.gate("principal identity kinds returned", (0..6).filter(|v| tally.get(&format!("principal_kind/{}", v)) > 0).count() as u64, 6);
     ctx.gate("absolute-form URIs", tally.get("absolute_form"), tier.n(1000, 10_000));
     ctx.gate("folded forms around the 65 534-byte URI limit decided (refused, or accepted and returned intact)", tally.get("large_folded_refused") + tally.get("large_folded_accepted_and_returned_intact"), tier.n(90, 2000));
     ctx.gate("bodies ≥ 64 KiB", tally.get("body_64k_plus"), tier.n(100, 2000));
     let rep = Report {
         level: "exploration",
-        rule: "Accepted W-sign requests over all methods, the five HTTP versions the http crate defines, origin- and absolute-form URIs, header multisets with repeated names and 0x80–0xFF values, bodies up to 1 MiB, the three built-in body types, folded and not; the provider answers with randomly built principals (0–3 identities of all six kinds) and session data (all value types). Oracle: field-by-field equality with the harness's own copy of the submission (method, version, header names/values/multiplicity/per-name order, body, URI); in the folded case: empty body, returned path canonicalises to the submitted path's canonical form, returned query multiset = URL ⊎ body pairs; principal and session data equal to the provider's. Distinct = distinct accepted cases, by case hash.".into(),
+        rule: "Accepted W-sign requests over all methods, the five HTTP versions the http crate defines, origin- and absolute-form URIs, header multisets with repeated names and 0x80–0xFF values, bodies up to 1 MiB, the three built-in body types, folded and not; the provider answers with randomly built principals (0–3 identities of all six kinds) and session data (all value types). Oracle: field-by-field equality with the harness's own copy of the submission (method, version, header names/values/multiplicity/per-name order, body, URI); in the folded case: empty body, returned path canonicalises to the submitted path's canonical form, returned query multiset = URL ⊎ body pairs; principal and session data equal to the provider's; every third accepted request is followed at once by another of the same access key, day, region, service and secret with another session token (or none) for which the provider answers with another identity, judged the same way. Distinct = distinct accepted cases, by case hash.".into(),
         assumptions: vec!["returned scheme/authority after folding and the X-Amz-Signature parameter are outside the statement (DESIGN §6)".into()],
         extra: J::obj().set("calibrated_vectors", J::i(pre.unwrap_or(0) as i64)),
     };
